@@ -253,3 +253,119 @@ def lcb (root : Rat → Rat) (kappa : Option Rat) (m : Rat × Rat) : Rat :=
 def rawAl (trees : List TreeOut) : Rat := sumL (trees.map (·.2)) / (trees.length : Rat)
 
 end DH.Forest
+
+/-! ## The environment of the call: the ambient joblib context
+
+`predict` hands the per-tree tasks to `joblib.Parallel(n_jobs=self.n_jobs, require="sharedmem")`.  Which
+backend runs them, and with how many workers, is decided by joblib from the call's own arguments AND from
+the context that is active in the caller's code (`with joblib.parallel_config(backend=…, n_jobs=…)`, the
+older `parallel_backend(…)`): `joblib.parallel._get_active_backend`, `_get_config_param`,
+`Parallel.__init__`, `Parallel.__call__`, `backend.effective_n_jobs`.  Modelled here, at nesting level 0
+(`n_jobs = 0` is rejected by joblib with a `ValueError` and is not modelled):
+
+* the call's `n_jobs` wins over the context's, which wins over the backend's default (1); a negative value
+  counts from the number of CPUs (`-1` = all of them - the default `n_jobs` of the legacy `parallel_backend`);
+* a context backend is used as it is, **unless** the call requires shared memory and the backend has none:
+  then the threading backend is used and the context's `n_jobs` is replaced by 1;
+* without a context backend the default is loky, replaced by threading when the call prefers threads
+  or requires shared memory (context `n_jobs` dropped in the same way);
+* `prefer` is only a hint: it never overrides a backend chosen by the caller's context;
+* one effective worker means the tasks run sequentially in the calling thread, whatever the backend.
+
+The forest's workers write into arrays of the caller.  A worker that does **not** share memory with
+the caller (a loky / multiprocessing worker process) receives pickled copies: its writes never reach the
+caller's arrays, which keep their initial zeros (`accStdEnv false = (0, 0)`). -/
+
+namespace DH.Forest
+
+/-- the joblib backends registered by default -/
+inductive Backend where
+  | sequential | threading | loky | multiprocessing
+deriving Repr, DecidableEq
+
+/-- `backend.supports_sharedmem` -/
+def Backend.sharedmem : Backend → Bool
+  | .sequential => true
+  | .threading => true
+  | _ => false
+
+/-- `backend.uses_threads` -/
+def Backend.usesThreads : Backend → Bool
+  | .sequential => true
+  | .threading => true
+  | _ => false
+
+/-- the context active around the call: `parallel_config(backend=…, n_jobs=…)`; `none` = not set
+(`parallel_backend(b)` without `n_jobs` is `⟨some b, some (-1)⟩`: its `n_jobs` defaults to `-1`) -/
+structure Ambient where
+  backend : Option Backend
+  nJobs : Option Int
+deriving Repr, DecidableEq
+
+/-- `backend.effective_n_jobs(n)` of the pool backends on a machine with `cpus` CPUs:
+`n < 0` → `max(cpus + 1 + n, 1)` -/
+def effJobs (cpus : Nat) (n : Int) : Nat :=
+  if n < 0 then max (Int.toNat ((cpus : Int) + 1 + n)) 1 else n.toNat
+
+/-- the call-level arguments `Parallel(…, prefer="threads")` / `Parallel(…, require="sharedmem")` -/
+structure Hints where
+  preferThreads : Bool
+  requireSharedmem : Bool
+deriving Repr, DecidableEq
+
+/-- what `forest.py` (and scikit-learn's own `ForestRegressor.predict`) passes -/
+def codeHints : Hints := ⟨false, true⟩
+
+/-- where the tasks run -/
+structure Resolved where
+  backend : Backend
+  /-- effective number of workers -/
+  nEff : Nat
+  /-- the tasks run in the calling thread (`n_jobs == 1`: no pool at all) -/
+  inCaller : Bool
+  /-- the workers' writes reach the caller's arrays -/
+  shared : Bool
+deriving Repr, DecidableEq
+
+/-- `_get_active_backend(prefer, require)` + the `n_jobs` resolution of `Parallel.__init__` +
+`backend.effective_n_jobs` + the sequential shortcut of `Parallel.__call__` -/
+def resolve (cpus : Nat) (h : Hints) (a : Ambient) (nJobs : Option Int) : Resolved :=
+  let explicit := a.backend.isSome
+  let b := a.backend.getD .loky
+  let forceThreads := (h.requireSharedmem && !b.sharedmem) ||
+    (!explicit && h.preferThreads && !b.usesThreads)
+  let b' := if forceThreads then Backend.threading else b
+  let ctxJobs : Option Int := if forceThreads then some 1 else a.nJobs
+  let n : Int := match nJobs with
+    | some k => k
+    | none => ctxJobs.getD 1
+  let nEff := if b' = .sequential then 1 else effJobs cpus n
+  ⟨b', nEff, nEff == 1, nEff == 1 || b'.sharedmem⟩
+
+/-- the caller's accumulators after the parallel loop -/
+def accStdEnv (shared : Bool) (minVar : Rat) (ts : List TreeOut) : Rat × Rat :=
+  if shared then accStd minVar ts else (0, 0)
+
+def accDisEnv (shared : Bool) (minVar : Rat) (ts : List TreeOut) : Rat × Rat × Rat :=
+  if shared then accDis minVar ts else (0, 0, 0)
+
+def accMeanEnv (shared : Bool) (ts : List TreeOut) : Rat :=
+  if shared then accMean ts else 0
+
+/-- the three forms called with `hints` inside the context `a` on a forest with `n_jobs = nJobs` -/
+def predictMeanEnv (cpus : Nat) (h : Hints) (a : Ambient) (nJobs : Option Int) (trees : List TreeOut) (order : List Nat) :
+    Option Rat :=
+  if trees.length = 0 then none
+  else some (accMeanEnv (resolve cpus h a nJobs).shared (permute trees order) / (trees.length : Rat))
+
+def predictStdEnv (cpus : Nat) (h : Hints) (a : Ambient) (nJobs : Option Int) (minVar : Rat) (trees : List TreeOut)
+    (order : List Nat) : Option StdOut :=
+  if trees.length = 0 then none
+  else some (finishStd (trees.length : Rat) (accStdEnv (resolve cpus h a nJobs).shared minVar (permute trees order)))
+
+def predictDisEnv (cpus : Nat) (h : Hints) (a : Ambient) (nJobs : Option Int) (minVar : Rat) (trees : List TreeOut)
+    (order : List Nat) : Option DisOut :=
+  if trees.length = 0 then none
+  else some (finishDis (trees.length : Rat) (accDisEnv (resolve cpus h a nJobs).shared minVar (permute trees order)))
+
+end DH.Forest
